@@ -3,6 +3,7 @@ package vnet
 import (
 	"errors"
 	"net"
+	"time"
 
 	vs "verif/vsched"
 )
@@ -55,3 +56,34 @@ func (l *Listener) Accept() (net.Conn, error) {
 
 func (l *Listener) Close() error   { l.Closed = true; vs.Touch(l, "lclose"); return nil }
 func (l *Listener) Addr() net.Addr { return Addr{"10.1.2.3:3868"} }
+
+// ---- dialling: the instrumented library's dialer.Dial(network, addr) lands here
+
+// DialRecord is one dial the library made.
+type DialRecord struct {
+	Network, Addr string
+	Timeout       time.Duration
+	LocalAddr     net.Addr
+}
+
+var (
+	DialQueue []net.Conn // what the next dials yield, in order
+	Dials     []DialRecord
+)
+
+func init() {
+	vs.DialFn = func(d interface{}, network, addr string) (net.Conn, error) {
+		rec := DialRecord{Network: network, Addr: addr}
+		if nd, ok := d.(*net.Dialer); ok {
+			rec.Timeout, rec.LocalAddr = nd.Timeout, nd.LocalAddr
+		}
+		Dials = append(Dials, rec)
+		if len(DialQueue) == 0 {
+			return nil, errors.New("connection refused")
+		}
+		c := DialQueue[0]
+		DialQueue = DialQueue[1:]
+		return c, nil
+	}
+	vs.OnReset(func() { DialQueue, Dials = nil, nil })
+}
